@@ -50,6 +50,13 @@ func main() {
 			os.Exit(2)
 		}
 		dumpWalk(p, os.Args[2], os.Args[3], len(os.Args) > 4)
+	case "dump-kinds":
+		p, err := Load("/repo", nil)
+		if err != nil {
+			fmt.Fprintln(os.Stderr, err)
+			os.Exit(2)
+		}
+		dumpKinds(p)
 	case "dump-ops":
 		p, err := Load("/repo", nil)
 		if err != nil {
